@@ -40,7 +40,9 @@ def scripts():
                          ("wait", 400), ("chunk", d), ("wait", 400), ("chunk", d), ("wait", 400), ("chunk", d), ("wait", 400), ("chunk", d)],
         "very-late-close": [("wait", 2500), ("chunk", c1)],
         "reset": [("chunk", d), ("reset",)],
-        "burst": [("chunk", d * 120 + p * 5 + d * 120)],      # a peer that keeps talking: everything is already readable
+        "burst": [("chunk", d * 120 + p * 5 + d * 120)],
+        "bad-empty": [("chunk", b"\xc1\x00"), ("chunk", d), ("chunk", c1)],      # a rejected frame WITHOUT payload, then legal traffic
+        "bad-empty-eof": [("chunk", b"\xc1\x00"), ("eof",)],      # a peer that keeps talking: everything is already readable
     }
 
 
@@ -124,7 +126,7 @@ def judge(ctx, line, script, ops, impl, sock):
             if t == 0 and nrecv > 50:
                 ctx.violate("close-returns-within-timeout", "timeout-0-reads-as-long-as-data-arrives", inp,
                             "no deadline-less reading with timeout=0", f"{nrecv} transport reads inside close(timeout=0)", size=size)
-            if script in ("silent",) and el != t and not inert:
+            if script in ("silent",) and el != t and not inert and sock.send_fail_after is None:
                 ctx.violate("close-returns-within-timeout", "silent-peer-not-exactly-timeout", inp, f"{t} ms", f"{el} ms", size=size)
         if res == "X:CLOSED" and a[0] in ("recv", "rdf") and not inert and calls > prev_calls:
             became_inert = True        # the call read the end of the stream: the connection is lost
@@ -156,6 +158,11 @@ def run(ctx):
             cfg = {"tail": "timeout", "to": 2000}
             sessions.append((cfg, scr[nm], ops))
             meta.append((nm, ops))
+            if len(ops) <= 2 or rnd.random() < 0.15:
+                # the transport starts refusing writes (EPIPE) at the k-th send: close() must still release everything
+                cfg = {"tail": "timeout", "to": 2000, "fail": rnd.choice([0, 0, 1, 2])}
+                sessions.append((cfg, scr[nm], ops))
+                meta.append((nm, ops))
     res = rx.run_sessions(ctx, "session:close-state", sessions)
     for (nm, ops), (impl, model, ws, sock, line) in zip(meta, res):
         nontriv = any(o.split(":")[0] in ("close", "sclose", "shutdown") for o in ops) or nm in ("close", "close2", "eof", "data-close", "data-eof", "reset")
